@@ -27,7 +27,8 @@ ASSUMPTIONS = [
 ]
 FLOORS = {'extractions': 300, 'focus_evaluations': 1000, 'depth2_focus': 50,
           'range_focus': 30, 'name_focus': 10, 'after_evaluation': 50,
-          'with_changes': 100, 'changes_by_name': 5}
+          'with_changes': 100, 'changes_by_name': 5,
+          'derived_originals': 100}
 ANCHOR_FUNCS = {'xlcalculator/model.py': ['ModelCompiler.extract']}
 TIMEOUT = {'quick': 600, 'thorough': 3000}
 
@@ -135,8 +136,15 @@ def run(ctx):
             subsets = rng.sample(subsets, 12)
         for focus in subsets:
             after_eval = rng.random() < 0.5
+            prov = rng.choice(['compiled', 'compiled', 'compiled', 'json',
+                               'deepcopy', 'extracted'])
             try:
-                original = compile_()
+                # "any model": also one restored from JSON, deep-copied, or
+                # itself the result of an extraction with everything in focus
+                original = build.derive(compile_(), prov, os.path.join(
+                    out, f's{ctx.shard}.json'))
+                if prov != 'compiled':
+                    ctx.event('derived_originals')
             except Exception as e:  # noqa
                 ctx.fail(f'building the model raised {e!r}',
                          {'cells': build.dict_of(wb)}, monitor='construction',
@@ -173,8 +181,10 @@ def run(ctx):
             except Exception as e:  # noqa
                 ctx.fail(f'extract(focus={focus_addrs}) raised '
                          f'{type(e).__name__}: {str(e)[:200]} '
-                         f'(original evaluated before: {after_eval})',
+                         f'(original evaluated before: {after_eval}; '
+                         f'{prov} model)',
                          {'cells': build.dict_of(wb), 'focus': focus_addrs,
+                          'original_model': prov,
                           'names': {n: build.name_target(t)
                                     for n, t in names.items()},
                           'after_evaluation': after_eval},
@@ -266,8 +276,10 @@ def run(ctx):
                             f'focus {f}: extracted model -> {gx}, original '
                             f'-> {go}, reference {want} (focus set '
                             f'{focus_addrs}, changes {chg}, original '
-                            f'evaluated before extraction: {after_eval})',
+                            f'evaluated before extraction: {after_eval}, '
+                            f'{prov} model)',
                             {'cells': build.dict_of(wb),
+                             'original_model': prov,
                              'focus': focus_addrs, 'element': f,
                              'changes': [(build.addr(k), v) for k, v in chg],
                              'extracted': gx, 'original': go,
